@@ -12,6 +12,11 @@ from ..ref import rarl
 from .. import lib
 
 
+# (nx, ny, surface variables, upper variables, levels, times) of the files mapped one after the other
+MAPFILES = ((20, 16, ['PRSS'], ['TEMP'], 1, 1), (25, 20, ['PRSS'], ['TEMP'], 1, 1), (16, 20, ['PRSS', 'T02M'], ['TEMP'], 2, 2),
+            (20, 16, ['T02M'], ['TEMP', 'UWND'], 1, 2))
+
+
 def alphabet(tier):
     a = [0., 1., -1.]
     for k in (-3, 0, 4, 15):
@@ -78,6 +83,11 @@ class Prop(core.Prop):
         for nt in (1, 2, 3):
             for nlev in (1, 2):
                 yield {'part': 'file', 'nt': nt, 'nlev': nlev}
+        # two files mapped one after the other in the same process: the second is laid out as the SECOND prescribes
+        for a in range(len(MAPFILES)):
+            for b in range(len(MAPFILES)):
+                if a != b:
+                    yield {'part': 'mapseq', 'first': a, 'second': b}
         # grids with 1000 or more points along one axis (thousands are stored as letters in the label)
         for grid in ([1002, 3], [3, 1100]) + (([2001, 3],) if tier == 'thorough' else ()):
             yield {'part': 'file', 'nt': 2, 'nlev': 1, 'grid': list(grid), 'big': True}
@@ -99,6 +109,8 @@ class Prop(core.Prop):
                 others = (2,) if self.tier != 'thorough' else ((2, 3) if group['orient'] == 'column' else (1, 2))
                 for other in others:
                     yield dict(group, us=[group['u0']] + list(rest), other=other)
+        elif group['part'] == 'mapseq':
+            yield dict(group)
         elif group['part'] == 'special':
             for v in (0., 1., -273.15, 1e30, 1e-30):
                 yield {'part': 'special', 'kind': 'constant', 'v': v, 'shape': [2, 3]}
@@ -127,6 +139,8 @@ class Prop(core.Prop):
     def run_one(self, case):
         if case['part'] == 'file':
             return self.run_file(case)
+        if case['part'] == 'mapseq':
+            return self.run_mapseq(case)
         a = alphabet(self.tier)
         if case['part'] == 'chain':
             step = 2. ** (case['k'] - 7)
@@ -197,6 +211,59 @@ class Prop(core.Prop):
                       h64(data.tobytes(), nexp) if not vs else None)
 
     # ------------------------------------------------------------------
+    def map_rec(self, k):
+        nx, ny, sfcn, upn, nlev, nt = MAPFILES[k]
+        j, i = np.mgrid[0:ny, 0:nx]
+        fld = lambda s: (s + 0.5 * i + 2. * j).astype('f')
+        times = [(95, 12, 31, 12), (96, 1, 1, 0)][:nt]
+        return dict(nx=nx, ny=ny, times=times, sfclevel=1.0, levels=[0.5, 0.25][:nlev],
+                    sfc={n: [fld(1000. * (q + 1) + ti) for ti in range(nt)] for q, n in enumerate(sfcn)},
+                    upper={n: [[fld(100. * (q + 1) + 10 * li + ti) for li in range(nlev)] for ti in range(nt)]
+                           for q, n in enumerate(upn)})
+
+    def run_mapseq(self, case):
+        """maparlpackedbit(path) called for two different files in a row (no props given)"""
+        from PseudoNetCDF.noaafiles._arl import maparlpackedbit, unpack
+        vs = []
+        recs = [self.map_rec(case['first']), self.map_rec(case['second'])]
+        paths = []
+        for q, r in enumerate(recs):
+            pth = os.path.join(self.tmp, 'map_%d_%d.bin' % (os.getpid(), q))
+            with open(pth, 'wb') as fh:
+                fh.write(rarl.encode_file(r))
+            paths.append(pth)
+        scope = dict(first='%dx%d' % (recs[0]['nx'], recs[0]['ny']), second='%dx%d' % (recs[1]['nx'], recs[1]['ny']),
+                     same_grid=bool((recs[0]['nx'], recs[0]['ny']) == (recs[1]['nx'], recs[1]['ny'])))
+        sig = ('maparlpackedbit', 'sequence')
+        try:
+            m1 = maparlpackedbit(paths[0])
+            del m1
+            m2 = maparlpackedbit(paths[1])
+            r = recs[1]
+            nt = len(r['times'])
+            if m2.shape != (nt,):
+                vs.append(viol('map-layout', sig, 'second file mapped as %r time records, it has %d' % (m2.shape, nt),
+                               **scope))
+            names = list(m2['surface'].dtype.names)
+            if names != list(r['sfc']):
+                vs.append(viol('map-layout', sig, 'surface variables %r expected %r' % (names, list(r['sfc'])), **scope))
+            else:
+                for n in names:
+                    head = m2['surface'][n]['head']
+                    raw = m2['surface'][n]['data']
+                    if raw.shape[-2:] != (r['ny'], r['nx']):
+                        vs.append(viol('map-layout', sig, '%s mapped as %r, the grid is %d rows x %d columns'
+                                       % (n, raw.shape, r['ny'], r['nx']), **scope))
+                        break
+                    got = np.asarray(unpack(raw, head['VAR1'], head['EXP']), 'd')
+                    for ti in range(nt):
+                        self.cmp_field(vs, sig, scope, n, got[ti], r['sfc'][n][ti])
+            del m2
+        except Exception as e:
+            vs.append(viol('map-raises', sig, '%s: %r' % (type(e).__name__, e), exc=type(e).__name__, **scope))
+        return result('viol' if vs else 'ok-map', vs, [h64('map', case['first'], case['second'])], 2,
+                      h64('map', case['first'], case['second']), h64('ok') if not vs else None)
+
     def run_file(self, case):
         P = lib.pnc()
         nx, ny = case.get('grid', (20, 16))
